@@ -19,6 +19,7 @@
  */
 #include "vp.h"
 #include "vp_flavor.h"
+#include "vp_tun.h"
 #include "forkh_rt.h"
 #include "forkh_ht.h"
 #include "forkh_thr.h"
@@ -83,6 +84,7 @@ struct scen {
 	unsigned long fresh_size;
 };
 
+static int g_qreg;		/* multi: forking thread registered with qsbr */
 static int g_reg;		/* forking thread registered with the harness flavor (non-bp) */
 static int g_maxdepth_cfg = 3, g_cur_maxdepth = 1;
 static double g_hookp = 0.25;
@@ -252,18 +254,10 @@ static void wait_helpers_asleep(void)
 
 static void user_hook(int point, const void *ctx)
 {
-	(void) ctx;
+	if ((point == URCU_VP_WQ_PAUSE || point == URCU_VP_WQ_PRE_SLEEP) && !g_wq)
+		__atomic_store_n(&g_wq, (const struct wq_mirror *) ctx, __ATOMIC_RELAXED);
 	if (point == URCU_VP_WQ_PAUSE) {
-		struct scen *s = g_cur;
-		if (!s)
-			return;
-		int queued = 0;
-		for (int i = 0; i < s->nht; i++)
-			if (s->ht[i].ht && ht_unsettled(&s->ht[i]))
-				queued++;
-		if (s->have_qht && s->qht.ht && ht_unsettled(&s->qht))
-			queued++;
-		if (queued)
+		if (wq_qlen() > 0)
 			__atomic_fetch_add(&g_wq_pause_with_work, 1, __ATOMIC_RELAXED);
 	} else if (point == URCU_VP_CRCU_HELPER_PAUSE)
 		__atomic_fetch_add(&g_helper_pause_seen, 1, __ATOMIC_RELAXED);
@@ -445,7 +439,11 @@ static void run_scenario(int depth, uint64_t idx)
 	}
 #ifdef HAVE_MULTI
 	if (s->multi) {
-		urcu_qsbr_register_thread();
+		if (!g_qreg) {
+			urcu_qsbr_register_thread();
+			g_qreg = 1;
+		} else
+			urcu_qsbr_thread_online();
 		if (vp_rand_n(&s->rng, 4)) {
 			if (ht_create(&s->qht, &urcu_qsbr_flavor, 128, 0x51000000ULL))
 				R_viol("c16:ht-new-failed", "%s: qsbr-bound table", s->cfg);
@@ -590,11 +588,12 @@ static void run_scenario(int depth, uint64_t idx)
 		struct htab *t = &s->ht[i];
 		t->size_at_fork = ht_size(t);
 		t->target_at_fork = ht_target(t);
-		t->state_at_fork = ht_unsettled(t) ? HT_QUEUED : (t->size_at_call ? HT_INFLIGHT : HT_SETTLED);
+		/* worker paused: work queue length > 0 <=> a resize is queued, not yet started */
+		t->state_at_fork = (ht_unsettled(t) && wq_qlen() != 0) ? HT_QUEUED : (t->size_at_call ? HT_INFLIGHT : HT_SETTLED);
 		if (t->state_at_fork > s->ht_state)
 			s->ht_state = t->state_at_fork;
 	}
-	if (s->have_qht && ht_unsettled(&s->qht) && s->ht_state < HT_QUEUED)
+	if (s->have_qht && ht_unsettled(&s->qht) && wq_qlen() != 0 && s->ht_state < HT_QUEUED)
 		s->ht_state = HT_QUEUED;
 	s->insec_at_fork = VP_IS_BP ? app_count_insec(&s->app) : 0;
 #if !VP_IS_BP
@@ -626,6 +625,7 @@ static void run_scenario(int depth, uint64_t idx)
 		g_app = NULL;		/* those threads do not exist here */
 		__atomic_store_n(&g_wq_pause_with_work, 0, __ATOMIC_RELAXED);
 		__atomic_store_n(&g_helper_pause_seen, 0, __ATOMIC_RELAXED);
+		__atomic_store_n(&g_stale_flag_seen, 0, __ATOMIC_RELAXED);
 		PH("after_fork_child");
 		int first = -1, bad = recheck_pending(s->recs, s->nrecs, &first);
 		if (bad)
@@ -691,6 +691,7 @@ static void run_scenario(int depth, uint64_t idx)
 		}
 		R_count("wq_pause_with_work_queued", __atomic_load_n(&g_wq_pause_with_work, __ATOMIC_RELAXED));
 		R_count("helper_pause_seen", __atomic_load_n(&g_helper_pause_seen, __ATOMIC_RELAXED));
+		R_count("stale_resize_initiated_flag", __atomic_load_n(&g_stale_flag_seen, __ATOMIC_RELAXED));
 		child_exit();
 	}
 
@@ -765,6 +766,7 @@ teardown:
 			ht_del_all_destroy(&s->qht, role, "qsbr table (teardown)", qnap);
 		urcu_qsbr_barrier();
 		urcu_qsbr_unregister_thread();
+		g_qreg = 0;
 	}
 #endif
 out_threads:
@@ -827,6 +829,7 @@ int main(int argc, char **argv)
 	g_hookp = vp_arg_double("hook-prob", 0.25);
 	g_multi = (int) vp_arg_long("multi", 0);
 	g_settle_polls = vp_arg_long("settle-polls", 24000);
+	vp_tun_bp_sleep_ms = (int) vp_arg_long("tun-bp-sleep", 10);
 	G.stall_ns = (uint64_t) vp_arg_long("stall-ms", 21000) * 1000000ULL;
 	int forker_thread = (int) vp_arg_long("forker-thread", -1);
 	if (forker_thread < 0)
@@ -851,6 +854,7 @@ int main(int argc, char **argv)
 	vp_counter_add("wq_pause_with_work_queued", __atomic_load_n(&g_wq_pause_with_work, __ATOMIC_RELAXED));
 	vp_counter_add("helper_pause_seen", __atomic_load_n(&g_helper_pause_seen, __ATOMIC_RELAXED));
 	vp_counter_add("forker_is_thread", (uint64_t) forker_thread);
+	vp_counter_add("stale_resize_initiated_flag", __atomic_load_n(&g_stale_flag_seen, __ATOMIC_RELAXED));
 	vp_note("TSan variant not built for this harness: no runtime threads in the child of a multi-threaded fork");
 	return vp_finish();
 }
